@@ -9,6 +9,14 @@ import json, os, shutil, subprocess, sys
 
 ROOT = os.path.dirname(os.path.abspath(__file__))
 SRC = '/tmp/seeded_out'
+TAG = ''
+for _a in list(sys.argv[1:]):
+    if _a.startswith('--src='):
+        SRC = _a.split('=', 1)[1]
+        sys.argv.remove(_a)
+    elif _a.startswith('--tag='):
+        TAG = _a.split('=', 1)[1]
+        sys.argv.remove(_a)
 
 def sh(cmd, **kw):
     return subprocess.run(cmd, stdout=subprocess.PIPE, stderr=subprocess.STDOUT, text=True, **kw)
@@ -51,14 +59,14 @@ def confirm(pid, x):
 def main():
     pids = sys.argv[1:] or sorted(d for d in os.listdir(SRC) if d.startswith('C'))
     for pid in pids:
-        for x in ('a', 'b'):
+        for x in ('a', 'b', 'c'):
             out = confirm(pid, x)
             if out is None:
                 continue
             meta, res = out
             ok = (res.get('patch_applies') and res.get('tests_pass_with_patch') and
                   res.get('demo_exit_patched') == 1 and res.get('demo_exit_unpatched') == 0)
-            sid = '%s-%s' % (pid, x)
+            sid = '%s-%s%s' % (pid, TAG, x)
             print('%s confirmed=%s %s' % (sid, ok, {k: v for k, v in res.items() if k != 'demo_output_patched'}))
             if not ok:
                 continue
